@@ -91,13 +91,15 @@ def pq(n, be, kind, rnd, mx=4, iters=1):
 def perm_queries(be, tier):
     qs = []
     for n in (2, 3, 4):
-        rr = range(12) if (tier == "thorough" or n == 2) else ([0, 5, 11] if n == 3 else [0, 11])
+        # x4 rounds cost 250-300 s each: the quick tier keeps one (c64, last round); all 12 x 3 back ends are in thorough
+        rr = range(12) if (tier == "thorough" or n == 2) else ([0, 5, 11] if n == 3 else ([11] if be == "c64" else []))
         for r in rr:
             qs.append(pq(n, be, 0, r))
         qs.append(pq(n, be, 1, 12))
         for r in (range(0, 14) if tier == "thorough" else [0, 1, 6, 11, 12]):
             qs.append(pq(n, be, 2, r))
-        qs.append(pq(n, be, 4, 11))
+        if tier == "thorough" or n < 4:
+            qs.append(pq(n, be, 4, 11))
         if n == 2:
             qs.append(pq(n, be, 4, 10))
             if tier == "thorough":
